@@ -8,7 +8,7 @@ import PyGqlModel.Spec.AsyncExecSpec
 set_option linter.unusedVariables false
 set_option linter.unusedSimpArgs false
 
-namespace PyGql.Exec
+namespace PyGql.AsyncExec
 
 /-- eventual outcome of a node: a plain value, a `ResolverError`, or an unexpected failure -/
 inductive EvR where
@@ -664,7 +664,7 @@ theorem resolveField_ev : ∀ (out : ROut) (path : Path) (mode : Mode) (s : Exec
     evRes (resolveField path mode out s).1 = denToEv (denOut out) ∧ GoodRes (resolveField path mode out s).1 = true ∧
     FlatRes (resolveField path mode out s).1 = true
   | .rerr, path, mode, s => by
-    cases mode <;> simp [resolveField, failField, evRes, ev, evCont, denToEv, denOut, GoodRes, Good, FlatRes, flat, ExecSt.submit]
+    cases mode <;> simp [resolveField, failField, evRes, ev, evCont, denToEv, denOut, GoodRes, Good, FlatRes, flat, ExecSt.submit, unwrapCb]
   | .exc, path, mode, s => by
     cases mode <;> simp [resolveField, evRes, ev, evExc, evCont, denToEv, denOut, GoodRes, Good, FlatRes, flat, ExecSt.submit]
   | .ok c, path, mode, s => by
@@ -688,6 +688,23 @@ theorem resolveField_ev : ∀ (out : ROut) (path : Path) (mode : Mode) (s : Exec
           · simpa [FlatRes] using flat_unwrapValue n
     | deferred => simp [resolveField, evRes, ev, evCont, denOut, GoodRes, Good, FlatRes, flat, ExecSt.submit]
     | nested => simp [resolveField, evRes, ev, evCont, denOut, GoodRes, Good, FlatRes, flat, ExecSt.submit]
+    | ready =>
+      obtain ⟨h1, h2, h3⟩ := completeValue_ev c path ((s.emit (.call path)).emit (.done path))
+      simp only [resolveField, denOut]
+      cases hr : completeValue path c ((s.emit (.call path)).emit (.done path)) with
+      | mk r s1 =>
+        rw [hr] at h1 h2 h3
+        cases r with
+        | exc e =>
+          cases e with
+          | resolver => cases hd : denComp c <;> simp [hd, evRes, evExc, denToEv] at h1
+          | boom => simpa [evRes, GoodRes, FlatRes, ev, Good, flat] using h1
+          | runtime => simpa [evRes, GoodRes, FlatRes, ev, Good, flat] using h1
+        | ok n =>
+          refine ⟨?_, ?_, ?_⟩
+          · simpa [evRes, ev_unwrapCb, ev] using h1
+          · simpa [GoodRes] using good_unwrapCb (.done n) (by simpa [Good, GoodRes] using h2)
+          · simpa [FlatRes] using flat_unwrapCb (.done n)
 end
 
 /-! ### the serial routine and the full callback interpreter -/
@@ -724,7 +741,15 @@ theorem serialNext_ev : ∀ (args : Flds) (path : Path) (resolved : List (String
           have hnone := denFlds_cons_none key mode out args (.inl hd)
           cases n with
           | val x => simp [ev, denToEv] at h1
-          | _ => simp_all [evRes, ev, evCont, serialSpec, denToEv, GoodRes, Good, FlatRes]
+          | done r =>
+            cases r with
+            | val x => simp [ev, denToEv] at h1
+            | _ => simp [FlatRes, flat] at h3
+          | failed e => simp_all [evRes, ev, evCont, serialSpec, denToEv, GoodRes, Good, FlatRes]
+          | task a b c d => simp_all [evRes, ev, evCont, serialSpec, denToEv, GoodRes, Good, FlatRes]
+          | chain a b => simp_all [evRes, ev, evCont, serialSpec, denToEv, GoodRes, Good, FlatRes]
+          | unwrap a => simp_all [evRes, ev, evCont, serialSpec, denToEv, GoodRes, Good, FlatRes]
+          | gather a b c => simp_all [evRes, ev, evCont, serialSpec, denToEv, GoodRes, Good, FlatRes]
         | some v =>
           rw [hd] at h1
           have hcons : denFlds (.cons key mode out args) = (denFlds args).map ((key, v) :: ·) := by
@@ -736,7 +761,43 @@ theorem serialNext_ev : ∀ (args : Flds) (path : Path) (resolved : List (String
             refine ⟨?_, i2⟩
             rw [i1, hcons]
             cases denFlds args <;> simp [serialSpec]
-          | _ =>
+          | done r =>
+            cases r with
+            | val x =>
+              simp [ev, denToEv] at h1; subst h1
+              obtain ⟨i1, i2⟩ := ih v s1
+              simp only []
+              cases hs : serialNext path (resolved ++ [(key, v)]) args s1 with
+              | mk r2 s2 =>
+                rw [hs] at i1 i2
+                rw [hcons]
+                cases r2 with
+                | ok x2 =>
+                  simp only [evRes, ev, GoodRes, Good] at i1 i2 ⊢
+                  refine ⟨?_, i2⟩
+                  rw [i1]; cases denFlds args <;> simp [serialSpec]
+                | exc e2 =>
+                  simp only [evRes, ev, GoodRes, Good] at i1 i2 ⊢
+                  refine ⟨?_, trivial⟩
+                  rw [i1]; cases denFlds args <;> simp [serialSpec]
+            | _ => simp [FlatRes, flat] at h3
+          | failed e => cases e <;> simp [ev, evExc, denToEv] at h1
+          | task a b c d =>
+            simp only [evRes, ev, GoodRes, Good] at h1 h2 h3 ⊢
+            simp only [FlatRes] at h3
+            rw [hcons]
+            cases hda : denFlds args <;> simp_all [evCont, serialSpec, denToEv, Good]
+          | chain a b =>
+            simp only [evRes, ev, GoodRes, Good] at h1 h2 h3 ⊢
+            simp only [FlatRes] at h3
+            rw [hcons]
+            cases hda : denFlds args <;> simp_all [evCont, serialSpec, denToEv, Good]
+          | unwrap a =>
+            simp only [evRes, ev, GoodRes, Good] at h1 h2 h3 ⊢
+            simp only [FlatRes] at h3
+            rw [hcons]
+            cases hda : denFlds args <;> simp_all [evCont, serialSpec, denToEv, Good]
+          | gather a b c =>
             simp only [evRes, ev, GoodRes, Good] at h1 h2 h3 ⊢
             simp only [FlatRes] at h3
             rw [hcons]
@@ -1025,4 +1086,4 @@ theorem blockField_den : ∀ (out : ROut) (p : Path) (s : ExecSt), resOpt (block
   | .ok c, p, s => by simpa [blockField, denOut] using blockComp_den c p _
 end
 
-end PyGql.Exec
+end PyGql.AsyncExec
